@@ -193,6 +193,8 @@ def part_b(rec, si, tier, seed, only=None):
 # ---------------------------------------------------------------- part (c)
 ML = {"X": S.POS, "Y": ("center", "left", "outer"), "Z": ("center", "right", "inner")}
 MN = {"X": 2, "Y": 3, "Z": 3}
+# what g_partial resolves to: X extend (named), Y and Z fill (periodic=False), fill value 6 only on Z
+GRID_LEVEL = dict(at="grid", boundary={"X": "extend", "Y": "fill", "Z": "fill"}, fill_value={"X": 0.0, "Y": 0.0, "Z": 6.0})
 RULESETS = (
     dict(boundary="extend", fill_value=None),
     dict(boundary={"X": "fill", "Y": "extend", "Z": "periodic"}, fill_value={"X": -3.0, "Y": 1.0, "Z": 2.0}),
@@ -210,6 +212,8 @@ def axis_orders():
 def part_c(rec, oi, tier, seed, only=None):
     order = axis_orders()[oi]
     g = build_grid(ML, MN, dict(periodic=False))
+    # a Grid whose own settings are a *partial* mapping: the axes it does not name follow `periodic`
+    g_partial = build_grid(ML, MN, dict(periodic=False, boundary={"X": "extend"}, fill_value={"Z": 6.0}))
     starts = [dict.fromkeys(("X", "Y", "Z"), "center")]
     if tier == "thorough":
         starts += [dict(X="left", Y="outer", Z="inner"), dict(X="outer", Y="left", Z="right"), dict(X="inner", Y="center", Z="center"), dict(X="right", Y="outer", Z="center")]
@@ -225,19 +229,27 @@ def part_c(rec, oi, tier, seed, only=None):
                 targets.append(["center"])
         for tos in itertools.product(*targets):
             for op in OPS:
-                for ri, rs in enumerate(RULESETS):
-                    for tostyle in ("map", "scalar"):
+                for ri, rs in enumerate(RULESETS + (GRID_LEVEL,)):
+                    for tostyle in ("map", "scalar", "map-reversed"):
                         if tostyle == "scalar" and len(set(tos)) != 1:
+                            continue
+                        if tostyle == "map-reversed" and (ri != 2 or len(order) < 2):
                             continue
                         case = dict(part="c", oi=oi, st=st_i, tos=list(tos), op=op, ri=ri, tostyle=tostyle)
                         if only is not None and only != case:
                             continue
                         da = xr.DataArray(a.copy(), dims=dims)
                         to_kw = dict(zip(order, tos)) if tostyle == "map" else tos[0]
-                        kw = {k: (dict(v) if isinstance(v, dict) else v) for k, v in rs.items() if v is not None}
+                        if tostyle == "map-reversed":
+                            # the same mapping listed in another key order: the order of application is that of `axis`
+                            to_kw = dict(reversed(list(zip(order, tos))))
+                        kw = {k: (dict(v) if isinstance(v, dict) else v) for k, v in rs.items() if v is not None and k != "at"}
+                        gg = g
+                        if rs.get("at") == "grid":
+                            gg, kw = g_partial, {}
                         rec.case(("c", oi, st_i, tos, op, ri, tostyle), True, sample=dict(case, order=list(order)), calls=len(order))
                         try:
-                            r = getattr(g, op)(da, list(order), to=to_kw, **kw)
+                            r = getattr(gg, op)(da, list(order), to=to_kw, **kw)
                         except Exception as e:
                             rec.violation("multi-axis", "raise:" + exc_sig(e), case, "array", f"{type(e).__name__}: {e}"[:200])
                             continue
